@@ -196,6 +196,7 @@ type verifReplayFile struct {
 	Nondets map[string]string `json:"nondets"`
 	Entries []verifSchedEntry `json:"schedule_entries"`
 	Blocked []verifBlocked    `json:"blocked"`
+	Visible []string          `json:"visible_positions"`
 }
 
 // last scheduling point each goroutine passed (for confirming a stuck-state counterexample)
@@ -281,6 +282,7 @@ var verifCtl struct {
 	diverged bool
 	arrived  time.Time
 	blocked  []verifBlocked
+	visible  map[string]bool
 }
 
 const (
@@ -304,9 +306,34 @@ func verifPoint(pos string) {
 	start := time.Now()
 	for {
 		c.mu.Lock()
-		if !c.active || c.cur >= len(c.entries) || c.remain[pos] == 0 || atomic.LoadInt32(&verifAtomicDepth) > 0 {
+		if !c.active || c.cur >= len(c.entries) || atomic.LoadInt32(&verifAtomicDepth) > 0 {
 			c.mu.Unlock()
 			return
+		}
+		if c.remain[pos] == 0 {
+			// no entry for this position is left. If the engine never treats this position as a scheduling
+			// point, or the goroutine is unknown, pass. If it is a scheduling point of a known goroutine that
+			// has no entry left, the schedule says this operation happens after everything listed: wait for
+			// the schedule to be consumed.
+			me, known := verifMyID()
+			mine := false
+			for _, x := range c.entries[c.cur:] {
+				if x.Site != "" && x.Gor == me {
+					mine = true
+					break
+				}
+			}
+			if !known || c.visible == nil || !c.visible[pos] || mine {
+				c.mu.Unlock()
+				return
+			}
+			if time.Since(start) > verifPatience {
+				c.mu.Unlock()
+				return
+			}
+			c.mu.Unlock()
+			time.Sleep(200 * time.Microsecond)
+			continue
 		}
 		e := c.entries[c.cur]
 		if e.Auto {
@@ -376,6 +403,12 @@ func verifLoad() {
 			verifRT.vals[k] = v
 		}
 		verifCtl.blocked = f.Blocked
+		if len(f.Visible) > 0 {
+			verifCtl.visible = map[string]bool{}
+			for _, p := range f.Visible {
+				verifCtl.visible[p] = true
+			}
+		}
 		if len(f.Entries) > 0 {
 			verifCtl.entries = f.Entries
 			verifCtl.remain = map[string]int{}
